@@ -426,7 +426,17 @@ def _install_recorder():
         from pyxel.calibration.archipelago_datatree import ArchipelagoDataTree
     except Exception:  # noqa: BLE001
         return
-    name = next((n for n in ("_get_champions", "get_champions") if callable(getattr(ArchipelagoDataTree, n, None))), None)
+    import inspect
+
+    # the method that collects the champions after each evolution: today's name first, else the only argument-less
+    # method of the class whose name speaks of champions (a rename keeps the word)
+    cands = [n for n in ("_get_champions", "get_champions") if callable(getattr(ArchipelagoDataTree, n, None))]
+    if not cands:
+        for n, fn in vars(ArchipelagoDataTree).items():
+            if "champion" in n.lower() and inspect.isfunction(fn) and len(inspect.signature(fn).parameters) == 1:
+                cands.append(n)
+        cands = cands if len(cands) == 1 else []
+    name = cands[0] if cands else None
     if name is None:
         return
     orig_c = getattr(ArchipelagoDataTree, name)
